@@ -98,32 +98,9 @@ func (h *Hook) Run(_ htypes.BindingType, context []bctx.BindingContext, logLabel
 
 	versionedContextList := bctx.ConvertBindingContextList(h.Config.Version, freshBindingContext)
 
-	contextPath, err := h.prepareBindingContextJsonFile(versionedContextList)
-	if err != nil {
-		return nil, err
-	}
+	var contextPath, metricsPath, admissionPath, conversionPath, kubernetesPatchPath string
 
-	metricsPath, err := h.prepareMetricsFile()
-	if err != nil {
-		return nil, err
-	}
-
-	admissionPath, err := h.prepareAdmissionResponseFile()
-	if err != nil {
-		return nil, err
-	}
-
-	conversionPath, err := h.prepareConversionResponseFile()
-	if err != nil {
-		return nil, err
-	}
-
-	kubernetesPatchPath, err := h.prepareObjectPatchFile()
-	if err != nil {
-		return nil, err
-	}
-
-	// remove tmp file on hook exit
+	// remove tmp files on hook exit (also the files prepared before a failed preparation step)
 	defer func() {
 		if app.DebugKeepTmpFilesVar != "yes" {
 			_ = os.Remove(contextPath)
@@ -133,6 +110,31 @@ func (h *Hook) Run(_ htypes.BindingType, context []bctx.BindingContext, logLabel
 			_ = os.Remove(kubernetesPatchPath)
 		}
 	}()
+
+	contextPath, err := h.prepareBindingContextJsonFile(versionedContextList)
+	if err != nil {
+		return nil, err
+	}
+
+	metricsPath, err = h.prepareMetricsFile()
+	if err != nil {
+		return nil, err
+	}
+
+	admissionPath, err = h.prepareAdmissionResponseFile()
+	if err != nil {
+		return nil, err
+	}
+
+	conversionPath, err = h.prepareConversionResponseFile()
+	if err != nil {
+		return nil, err
+	}
+
+	kubernetesPatchPath, err = h.prepareObjectPatchFile()
+	if err != nil {
+		return nil, err
+	}
 
 	envs := make([]string, 0)
 	envs = append(envs, os.Environ()...)
